@@ -728,9 +728,10 @@ impl Vfs {
 
         match self.mountpoints.load().get(&entry.inode) {
             Some(mnt) => {
-                // cross mountpoint, return mount root entry
+                // cross mountpoint, return mount root entry. It has been converted (inode
+                // number and owner ids) when the file system was mounted, see
+                // insert_mount_locked(): converting it again would remap the ids twice.
                 entry = mnt.root_entry;
-                self.convert_entry(mnt.fs_idx, mnt.ino, &mut entry)?;
                 trace!(
                     "vfs lookup cross mountpoint, return new mount fs_idx {} inode 0x{:x} fuse inode 0x{:x}, attr inode 0x{:x}",
                     mnt.fs_idx,
